@@ -105,36 +105,75 @@ impl<'a> Tr<'a> {
                 }
                 Ok(self.store(&pl, &r.s, env))
             }
-            Expr::Binary(b) if matches!(b.op, BinOp::AddAssign(_) | BinOp::SubAssign(_)) => {
+            Expr::Binary(b) if matches!(b.op, BinOp::AddAssign(_) | BinOp::SubAssign(_) | BinOp::BitOrAssign(_) | BinOp::BitAndAssign(_) | BinOp::BitXorAssign(_)) => {
+                let (op, bitop) = match b.op {
+                    BinOp::AddAssign(_) => ("+", false),
+                    BinOp::SubAssign(_) => ("-", false),
+                    BinOp::BitOrAssign(_) => ("|||", true),
+                    BinOp::BitAndAssign(_) => ("&&&", true),
+                    _ => ("^^^", true),
+                };
                 let left = self.strip(&b.left)?;
+                // the target: a `let mut` local, `*x` for a borrow of an element, or a place
+                enum Target {
+                    Var(String, Option<Borrow>),
+                    Place(PlaceInfo),
+                }
+                let mut target: Option<(Target, String, Ty)> = None;
                 if let Some((x, segs)) = self.as_place(left) {
                     if segs.is_empty() {
                         if let Some(Var { kind: Kind::MutLocal, ty, .. }) = self.lookup(env, &x).cloned() {
-                            // x += e for a `let mut` local
-                            let (r, rt) = self.expr(&b.right, env)?;
-                            if self.effect_seen || !matches!((&ty, &rt), (Ty::Int(..), Ty::Int(..))) {
-                                return self.unsupported(sp, "compound assignment on a non-integer local");
-                            }
-                            let op = if matches!(b.op, BinOp::AddAssign(_)) { "+" } else { "-" };
-                            note!(self, arith, format!("line {}: `{}`", line_of(sp), self.src_text(sp)));
-                            return Ok(vec![(lean_ident(&x), format!("{} {op} {}", lean_ident(&x), r.arg()))]);
+                            target = Some((Target::Var(x.clone(), None), lean_ident(&x), ty));
                         }
                     }
                 }
-                if self.as_place(left).map(|p| p.1.is_empty()).unwrap_or(true) {
-                    return self.unsupported(sp, "compound assignment (only to `self.f`)");
+                if let Expr::Unary(u) = left {
+                    if matches!(u.op, UnOp::Deref(_)) {
+                        if let Some((x, segs)) = self.as_place(&u.expr) {
+                            if segs.is_empty() {
+                                match self.lookup(env, &x).cloned() {
+                                    Some(Var { kind: Kind::MutBorrow(bor), ty, .. }) => target = Some((Target::Var(x.clone(), Some(bor)), lean_ident(&x), ty)),
+                                    Some(Var { kind: Kind::ElemMut, ty, .. }) => target = Some((Target::Var(x.clone(), None), lean_ident(&x), ty)),
+                                    _ => {}
+                                }
+                            }
+                        }
+                    }
                 }
-                let pl = self.writable(left, env)?;
-                let (r, rt) = self.expr(&b.right, env)?;
+                if target.is_none() {
+                    if self.as_place(left).map(|p| p.1.is_empty()).unwrap_or(true) {
+                        return self.unsupported(sp, "compound assignment (only to `self.f`)");
+                    }
+                    let pl = self.writable(left, env)?;
+                    let (rd, ty) = (pl.read(), pl.ty.clone());
+                    target = Some((Target::Place(pl), rd, ty));
+                }
+                let (target, read, ty) = target.unwrap();
+                let saved = self.bits_ctx;
+                if let Ty::Bits(w) = ty {
+                    self.bits_ctx = Some(w);
+                }
+                let r = self.expr(&b.right, env);
+                self.bits_ctx = saved;
+                let (r, rt) = r?;
                 if self.effect_seen {
                     return self.unsupported(sp, "effect inside a compound assignment:");
                 }
-                if !matches!((&pl.ty, &rt), (Ty::Int(..), Ty::Int(..))) {
-                    return self.unsupported(sp, "compound assignment on a non-integer field");
+                match (bitop, &ty, &rt) {
+                    (false, Ty::Int(..), Ty::Int(..)) => note!(self, arith, format!("line {}: `{}`", line_of(sp), self.src_text(sp))),
+                    (true, Ty::Bits(a), Ty::Bits(c)) if a == c => {}
+                    (false, _, _) => return self.unsupported(sp, if matches!(target, Target::Place(_)) { "compound assignment on a non-integer field" } else { "compound assignment on a non-integer local" }),
+                    (true, _, _) => return self.unsupported(sp, "bitwise compound assignment on something that is not a block of bits:"),
                 }
-                let op = if matches!(b.op, BinOp::AddAssign(_)) { "+" } else { "-" };
-                note!(self, arith, format!("line {}: `{}`", line_of(sp), self.src_text(sp)));
-                Ok(self.store(&pl, &format!("{} {op} {}", pl.read(), r.arg()), env))
+                let v = format!("{read} {op} {}", r.arg());
+                match target {
+                    Target::Var(x, None) => Ok(vec![(lean_ident(&x), v)]),
+                    Target::Var(x, Some(bor)) => {
+                        let wb = self.write_back(&bor, &lean_ident(&x));
+                        Ok(vec![(lean_ident(&x), v), wb])
+                    }
+                    Target::Place(pl) => Ok(self.store(&pl, &v, env)),
+                }
             }
             Expr::Call(c) => {
                 // assume_unchecked(cond): skipped, listed
@@ -231,7 +270,8 @@ impl<'a> Tr<'a> {
                         }
                         Ok(upd(format!("vecResize {rd} {} {}", n.arg(), x.arg())))
                     }
-                    _ => self.unsupported(sp, "Vec method as a statement (only insert, push, remove, swap_remove, resize)"),
+                    ("clear", 0) => Ok(upd("[]".to_string())),
+                    _ => self.unsupported(sp, "Vec method as a statement (only insert, push, remove, swap_remove, resize, clear)"),
                 }
             }
             _ => self.unsupported(sp, "statement"),
@@ -279,6 +319,33 @@ impl<'a> Tr<'a> {
         let want = self.wants_value(mode);
         self.begin_stmt();
         let v = match (want, value) {
+            (true, Some(e)) if self.ret_borrow.is_some() && mode == Mode::Tail && self.loop_ctx.is_none() => {
+                // the returned borrow must be `self.v.get_unchecked_mut(i)`: the result is `i`
+                let inner = self.strip(e)?;
+                let m = match inner {
+                    Expr::MethodCall(m) if (m.method == "get_unchecked_mut") && m.args.len() == 1 => m,
+                    _ => return self.unsupported(e.span(), "returned mutable borrow (only `self.v.get_unchecked_mut(i)`)"),
+                };
+                let pl = match self.place(&m.receiver, env)? {
+                    Some(pl) if pl.base == "self" && matches!(pl.ty, Ty::Vec(_)) => pl,
+                    _ => return self.unsupported(e.span(), "returned mutable borrow (only `self.v.get_unchecked_mut(i)`)"),
+                };
+                let elem = match &pl.ty {
+                    Ty::Vec(t) => (**t).clone(),
+                    _ => unreachable!(),
+                };
+                let (i, it) = self.expr(&m.args[0], env)?;
+                if !matches!(it, Ty::Int(..)) || !assignable(&self.ret_borrow.as_ref().unwrap().1, &elem) {
+                    return self.err(e.span(), "types of the returned mutable borrow");
+                }
+                match &self.ret_borrow {
+                    Some((p, _)) if !p.is_empty() && *p != pl.lean_path => return self.unsupported(e.span(), "returned mutable borrows into different Vecs:"),
+                    _ => {}
+                }
+                self.ret_borrow = Some((pl.lean_path.clone(), elem));
+                note!(self, unchecked, format!("line {}: `{}` is returned as the index; the caller reads the element with a checked lookup (`default` out of range, undefined behaviour in Rust)", line_of(e.span()), self.src_text(inner.span())));
+                Some(i)
+            }
             (true, Some(e)) => {
                 let (l, t) = self.expr(e, env)?;
                 self.check_effect_order(e)?;
@@ -380,6 +447,29 @@ impl<'a> Tr<'a> {
                 Stmt::Local(l) => {
                     if !l.attrs.is_empty() {
                         return self.unsupported(l.span(), "attribute on a `let`");
+                    }
+                    // `let (a, b) = e;`
+                    if let (Pat::Tuple(pt), Some(init)) = (&l.pat, &l.init) {
+                        if init.diverge.is_none() && pt.elems.iter().all(|q| matches!(q, Pat::Ident(i) if i.by_ref.is_none() && i.mutability.is_none() && i.subpat.is_none())) {
+                            let (v, t) = self.expr(&init.expr, &env)?;
+                            self.check_effect_order(&init.expr)?;
+                            let ts = match t {
+                                Ty::Tuple(ts) if ts.len() == pt.elems.len() => ts,
+                                _ => return self.unsupported(l.span(), "`let` of a tuple pattern on a value that is not such a tuple:"),
+                            };
+                            let mut names = vec![];
+                            for (q, qt) in pt.elems.iter().zip(ts) {
+                                if let Pat::Ident(i) = q {
+                                    names.push(lean_ident(&i.ident.to_string()));
+                                    env.push(var(i.ident.to_string(), qt));
+                                }
+                            }
+                            let own = vec![Chunk::Lines(vec![format!("let ({}) := {}  -- L{}", names.join(", "), v.s, line_of(l.span()))])];
+                            if let Some(done) = self.close_stmt(stmts, i + 1, &env, mode, sp, &mut out, own)? {
+                                return Ok(done);
+                            }
+                            continue;
+                        }
                     }
                     let let_mut = matches!(&l.pat, Pat::Ident(p) if p.by_ref.is_none() && p.mutability.is_some() && p.subpat.is_none() && l.init.is_some());
                     let (name, declared) = match &l.pat {
@@ -693,6 +783,16 @@ impl<'a> Tr<'a> {
     fn for_elems(&mut self, fl: &syn::ExprForLoop, env: &Env, mode: Mode) -> Res<Vec<Chunk>> {
         let sp = fl.span();
         let src = self.strip(&fl.expr)?;
+        // `for (a, b) in P.iter_mut().zip(Q.iter()) { body }`: `P := vecZipMut (fun a b => body; a) P Q`
+        if let Expr::MethodCall(z) = src {
+            if z.method == "zip" && z.args.len() == 1 {
+                if let Expr::MethodCall(im) = &*z.receiver {
+                    if im.method == "iter_mut" && im.args.is_empty() {
+                        return self.for_zip_mut(fl, &im.receiver, &z.args[0], env);
+                    }
+                }
+            }
+        }
         // the source: (Lean list, element type, the place to store the mapped list into — for the `&mut` form)
         enum Store {
             Place(PlaceInfo),
@@ -844,6 +944,68 @@ impl<'a> Tr<'a> {
             None => format!("{})", lines[last]),
         };
         Ok(vec![Chunk::LetState(pat, lines)])
+    }
+
+    fn for_zip_mut(&mut self, fl: &syn::ExprForLoop, p: &Expr, q: &Expr, env: &Env) -> Res<Vec<Chunk>> {
+        let sp = fl.span();
+        let pl = self.writable(p, env)?;
+        let ea = match &pl.ty {
+            Ty::Vec(t) => (**t).clone(),
+            _ => return self.unsupported(sp, "`iter_mut()` on something that is not a Vec:"),
+        };
+        let (ql, qt) = self.expr(q, env)?;
+        let eb = match qt {
+            Ty::Iter(t) => *t,
+            _ => return self.unsupported(sp, "argument of `zip` (only another iterator)"),
+        };
+        if self.effect_seen || !self.pre.is_empty() {
+            return self.unsupported(sp, "effect or early exit in the source of a loop:");
+        }
+        let (a, b) = match &*fl.pat {
+            Pat::Tuple(t) if t.elems.len() == 2 => match (&t.elems[0], &t.elems[1]) {
+                (Pat::Ident(a), Pat::Ident(b)) if a.by_ref.is_none() && a.mutability.is_none() && b.by_ref.is_none() && b.mutability.is_none() => (a.ident.to_string(), b.ident.to_string()),
+                _ => return self.unsupported(sp, "loop pattern (only `(a, b)`)"),
+            },
+            _ => return self.unsupported(sp, "loop pattern (only `(a, b)`)"),
+        };
+        {
+            use quote::ToTokens;
+            if tokens_have_panic(fl.body.to_token_stream()) {
+                return self.unsupported(sp, "loop over elements whose body can panic:");
+            }
+        }
+        let mut env2 = env.clone();
+        env2.push(Var { name: a.clone(), ty: ea, kind: Kind::ElemMut });
+        env2.push(var(b.clone(), eb));
+        let saved = (self.loop_ctx.take(), std::mem::replace(&mut self.ret, Ty::Unit), self.has_panic, self.match_depth, std::mem::take(&mut self.state), self.self_mut, std::mem::take(&mut self.mut_params));
+        self.loop_ctx = Some((vec![a.clone()], false));
+        self.has_panic = false;
+        self.match_depth = 0;
+        self.self_mut = false;
+        let pre_outer = self.take_pre();
+        let body = self.block(&fl.body.stmts, &env2, Mode::Tail, fl.body.span());
+        self.pre = pre_outer;
+        self.loop_ctx = saved.0;
+        self.ret = saved.1;
+        self.has_panic = saved.2;
+        self.match_depth = saved.3;
+        self.state = saved.4;
+        self.self_mut = saved.5;
+        self.mut_params = saved.6;
+        let body = body?;
+        let tmp = self.fresh("m");
+        let mut lines = vec![format!("vecZipMut (fun {} {} =>  -- L{}: `for {} in {}`", lean_ident(&a), lean_ident(&b), line_of(sp), self.src_text(fl.pat.span()), self.src_text(fl.expr.span()))];
+        lines.extend(indent(indent(body)));
+        let last = lines.len() - 1;
+        let tail = format!(") {} {}", pl.read(), ql.arg());
+        lines[last] = match lines[last].find("  -- ") {
+            Some(c) => format!("{}{tail}{}", &lines[last][..c], &lines[last][c..]),
+            None => format!("{}{tail}", lines[last]),
+        };
+        let mut out = vec![Chunk::LetState(tmp.clone(), lines)];
+        let lets = self.store(&pl, &tmp, env);
+        out.extend(Self::lets_to_chunks(lets, line_of(sp)));
+        Ok(out)
     }
 
     fn panic_lines(&mut self, mut out: Vec<Chunk>, m: &syn::Macro, sp: Span) -> Vec<String> {
@@ -1431,9 +1593,19 @@ impl<'a> Tr<'a> {
                 }
             }
         }
+        self.ret_borrow = None;
         self.ret = match &sig.output {
             ReturnType::Default => Ty::Unit,
-            ReturnType::Type(_, t) => self.ty(t)?,
+            // `-> &mut T`: a mutable borrow of an element of a Vec field of `self`; the function returns the element's index
+            ReturnType::Type(_, t) => match &**t {
+                Type::Reference(r) if r.mutability.is_some() && self.self_mut => {
+                    let elem = self.ty(&r.elem)?;
+                    self.ret_borrow = Some((vec![], elem));
+                    note!(self, refs, format!("fn {} returns `{}`, a mutable borrow of an element of a Vec of `self`: the Lean function returns the element's index, the caller works on a copy and writes it back", self.fn_name, self.src_text(t.span())));
+                    Ty::usize()
+                }
+                _ => self.ty(t)?,
+            },
         };
         if self.state_base().is_empty() && self.ret == Ty::Unit {
             return self.unsupported(sp, if self.has_self { "`&self` method without a result" } else { "associated function without a result" });
@@ -1461,7 +1633,7 @@ impl<'a> Tr<'a> {
         let ret = if self.has_panic { format!("Outcome ({ret})") } else { ret };
         let mut inst: Vec<String> = self.deceq.iter().map(|v| format!("[DecidableEq {v}]")).collect();
         inst.extend(self.inh.iter().map(|v| format!("[Inhabited {v}]")));
-        let lean_name = if primary { lean_ident(&self.fn_name) } else { format!("{}.{}", lean_ident(ty_name), lean_ident(&self.fn_name)) };
+        let lean_name = if primary || ty_name.is_empty() { lean_ident(&self.fn_name) } else { format!("{}.{}", lean_ident(ty_name), lean_ident(&self.fn_name)) };
         let mut head = format!("def {lean_name}");
         for b in inst.iter().chain(binders.iter()) {
             head.push(' ');
@@ -1488,6 +1660,7 @@ impl<'a> Tr<'a> {
             ret: self.ret.clone(),
             has_panic: self.has_panic,
             mut_params: self.mut_params.len(),
+            ret_borrow: self.ret_borrow.clone(),
             lean: lean_name,
             deceq: self.deceq.clone(),
             inh: self.inh.clone(),
